@@ -270,6 +270,7 @@ func (d *delivery) connect(ctx context.Context) error {
 
 func (d *delivery) AddRcpt(ctx context.Context, rcptTo string, opts smtp.RcptOptions) error {
 	err := d.conn.Rcpt(ctx, rcptTo, opts)
+	verifRcpt(d, rcptTo, err)
 	if err != nil {
 		return d.u.moduleError(err)
 	}
@@ -289,6 +290,8 @@ func (d *delivery) Body(ctx context.Context, header textproto.Header, body buffe
 }
 
 func (d *lmtpDelivery) BodyNonAtomic(ctx context.Context, sc module.StatusCollector, header textproto.Header, body buffer.Buffer) {
+	sc = verifBody(d.delivery, sc)
+	defer verifBodyDone(d.delivery)
 	r, err := body.Open()
 	if err != nil {
 		modErr := d.u.moduleError(err)
